@@ -747,3 +747,243 @@ class ReaderBody:
             body = self.run(rest, cur, env, tail)
             return f'let acc := {s[1]} :: acc\n{body}'
         raise ExtractError(f'{self.fname}: statement {s} not supported')
+
+
+# ---------------------------------------------------------------- loop-free functions with if-ladders (convert_pp_int), scans (pp-number)
+# (C11, second deepening)  Everything below is add-only; nothing above uses it.
+
+TEXT_PREAMBLE = '''/-- `<ctype.h>` `isdigit` in the C locale, on a `char` (glibc: false for every byte outside ASCII); libc, trusted -/
+def isdigit (b : BitVec 8) : Bool := 48 ≤ b.toNat && b.toNat ≤ 57
+
+/-- `<ctype.h>` `isalnum` in the C locale, on a `char`; libc, trusted -/
+def isalnum (b : BitVec 8) : Bool :=
+  (48 ≤ b.toNat && b.toNat ≤ 57) || (97 ≤ b.toNat && b.toNat ≤ 122) || (65 ≤ b.toNat && b.toNat ≤ 90)
+
+/-- `<ctype.h>` `tolower` in the C locale as `strncasecmp` applies it to one byte; libc, trusted -/
+def tolower (b : BitVec 8) : BitVec 8 := if 65 ≤ b.toNat && b.toNat ≤ 90 then b + 32#8 else b
+
+/-- libc `strchr("<literal>", c) != NULL`: `c` occurs in the literal, or `c` is 0 (`strchr` finds the terminator); trusted -/
+def strchrLit (s : List Nat) (c : BitVec 8) : Bool := c == 0#8 || s.contains c.toNat
+
+'''
+
+
+def assigned_vars(stmts):
+    return CursorFn.assigned(None, stmts)
+
+
+class TextConds:
+    """Conditions and byte reads over the cursor `p` of a NUL-terminated text held in the Lean list `p`:
+       `*p`, `p[k]`, `isdigit(p[k])` …, `startswith(p, "lit")`, `!strncasecmp(p, "lit", n)`, `strchr("lit", p[k])`, `&&`, `||`, `!`,
+       and everything cmini.Emitter.cond accepts over the scalar locals.  `st` is a `State` (cursor = st.base + st.k)."""
+
+    def __init__(self, name, calls):
+        self.name, self.calls = name, calls
+
+    def at(self, st, off=0):
+        return idx_text(st.base, st.k + off)
+
+    def emitter(self, st):
+        fn = self
+
+        def index(e):
+            if e == ('un', '*', ('id', 'p')):
+                return f'byteAt p ({fn.at(st)})', 'char'
+            if e[0] == 'idx' and e[1] == ('id', 'p') and e[2][0] == 'num':
+                return f'byteAt p ({fn.at(st, e[2][1])})', 'char'
+            raise ExtractError(f'{fn.name}: memory access {e} not understood')
+        env = {k: v for k, v in st.env.items() if v[1] in cmini.WIDTH or v[1] in ('bool', 'nat')}
+        return Emitter(env, index, calls=self.calls)
+
+    def lit_bytes(self, e, what):
+        if e[0] != 'str':
+            raise ExtractError(f'{self.name}: {what}: string literal expected')
+        bs = c_unescape(e[1])
+        if not bs or 0 in bs:
+            raise ExtractError(f'{self.name}: {what}: empty pattern or NUL in the pattern')
+        return bs
+
+    def cond(self, st, e):
+        k = e[0]
+        if k == 'bin' and e[1] in ('&&', '||'):
+            return f'({self.cond(st, e[2])} {"∧" if e[1] == "&&" else "∨"} {self.cond(st, e[3])})'
+        if k == 'call' and e[1] == 'startswith':
+            # startswith(p, q) = strncmp(p, q, strlen(q)) == 0 (pinned by the caller); a pattern without NUL: the first bytes are equal
+            if len(e[2]) != 2 or e[2][0] != ('id', 'p'):
+                raise ExtractError(f'{self.name}: startswith on something other than the cursor')
+            bs = self.lit_bytes(e[2][1], 'startswith')
+            return '(' + ' ∧ '.join(f'byteAt p ({self.at(st, i)}) = {b}#8' for i, b in enumerate(bs)) + ')'
+        if k == 'call' and e[1] == 'strncasecmp':
+            # strncasecmp(p, "lit", n) with n = strlen(lit): zero iff the first n bytes are equal after tolower (C locale)
+            a = e[2]
+            if len(a) != 3 or a[0] != ('id', 'p'):
+                raise ExtractError(f'{self.name}: strncasecmp on something other than the cursor')
+            bs = self.lit_bytes(a[1], 'strncasecmp')
+            if a[2] != ('num', len(bs), ''):
+                raise ExtractError(f'{self.name}: strncasecmp length is not the length of the pattern')
+            eq = '(' + ' ∧ '.join(f'tolower (byteAt p ({self.at(st, i)})) = tolower {b}#8' for i, b in enumerate(bs)) + ')'
+            return f'(¬ {eq})'                  # the int result used as a truth value: non-zero = different
+        if k == 'un' and e[1] == '!':
+            if e[2][0] == 'call' and e[2][1] == 'strncasecmp':
+                return self.cond(st, e[2])[3:-1]            # strip the `(¬ ` … `)` put on above
+            return f'(¬ {self.cond(st, e[2])})'
+        if k == 'call' and e[1] == 'strchr':
+            if len(e[2]) != 2:
+                raise ExtractError(f'{self.name}: strchr arguments')
+            bs = self.lit_bytes(e[2][0], 'strchr')
+            txt, ty = self.emitter(st).value_nopromote(e[2][1])
+            if ty not in ('char', 'uchar'):
+                raise ExtractError(f'{self.name}: strchr of a non-byte')
+            return f'(strchrLit [{", ".join(str(b) for b in bs)}] ({txt}) = true)'
+        return self.emitter(st).cond(e)
+
+
+class LadderFn(TextConds):
+    """A C function without loops: declarations, if-ladders that only move the cursor and assign literals to scalar locals, one call
+    of an external function through `&p`, guards `if (C) return false;`, a final `return true;` after assignments to `tok->…`.
+    Every if-ladder becomes its own Lean function from the cursor to the tuple (new cursor, assigned locals); the function itself is
+    the sequence of these steps.  `tok->loc` is the index `loc` into the text `p`, `tok->loc + tok->len` is `loc + len`."""
+
+    def __init__(self, name, lean_name, calls):
+        super().__init__(name, calls)
+        self.lean_name = lean_name
+        self.aux = []
+        self.nsel = 0
+        self.nq = 0
+
+    # ---- an if-ladder as a function: (cursor) -> (cursor', assigned locals)
+    def is_const(self, txt):
+        return re.fullmatch(r'\d+|true|false', txt) is not None
+
+    def leaf(self, stmts, st, outs):
+        for s in stmts:
+            if s[0] == 'block':
+                self.leaf(s[1], st, outs)
+                continue
+            if s[0] != 'expr':
+                raise ExtractError(f'{self.name}: statement {s[0]} inside an if-ladder arm')
+            e = s[1]
+            if e == ('postinc', ('id', 'p')) or e == ('preinc', ('id', 'p')):
+                st.k += 1
+            elif e[0] == 'assign' and e[1] == '+=' and e[2] == ('id', 'p') and e[3][0] == 'num':
+                st.k += e[3][1]
+            elif e[0] == 'assign' and e[1] == '=' and e[2][0] == 'id':
+                # v = literal | v = w = literal
+                names = []
+                x = e
+                while x[0] == 'assign' and x[1] == '=' and x[2][0] == 'id':
+                    names.append(x[2][1])
+                    x = x[3]
+                for v in names:
+                    if v not in st.env or st.env[v][1] not in ('nat', 'bool'):
+                        raise ExtractError(f'{self.name}: assignment to {v} inside an if-ladder arm')
+                    if st.env[v][1] == 'nat' and x[0] == 'num' and x[2] == '':
+                        st.env[v] = (str(x[1]), 'nat')
+                    elif st.env[v][1] == 'bool' and x in (('id', 'true'), ('id', 'false')):
+                        st.env[v] = (x[1], 'bool')
+                    else:
+                        raise ExtractError(f'{self.name}: {v} = {x}: a literal was expected')
+            else:
+                raise ExtractError(f'{self.name}: statement {e} inside an if-ladder arm')
+        return '(' + ', '.join([self.at(st)] + [st.env[v][0] for v in outs]) + ')'
+
+    def ladder(self, s, st, outs):
+        if s is None:
+            return self.leaf([], st.copy(), outs)
+        if s[0] == 'block' and len(s[1]) == 1 and s[1][0][0] == 'if':
+            s = s[1][0]
+        if s[0] != 'if':
+            return self.leaf([s], st.copy(), outs)
+        c = self.cond(st, s[1])
+        a = self.ladder_arm(s[2], st, outs)
+        b = self.ladder(s[3], st, outs)
+        return f'if {c} then\n{indent(a)}\nelse\n{indent(b)}'
+
+    def ladder_arm(self, s, st, outs):
+        items = unblock(s)
+        if len(items) == 1 and items[0][0] == 'if':
+            return self.ladder(items[0], st, outs)
+        return self.leaf(items, st.copy(), outs)
+
+    def selector(self, s, st, doc):
+        """emit the function for the if-statement `s`; returns (call text, outs) and updates nothing"""
+        asg = assigned_vars([s])
+        outs = [v for v in st.env if v in asg]
+        for v in asg:
+            if v != 'p' and v not in st.env:
+                raise ExtractError(f'{self.name}: the if-ladder assigns {v}, which is not a scalar local')
+        for v in outs:
+            if not self.is_const(st.env[v][0]):
+                raise ExtractError(f'{self.name}: {v} does not hold a literal when the if-ladder starts')
+        self.nsel += 1
+        name = f'{self.lean_name}_sel{self.nsel}'
+        inner = State('q', 0, st.env)
+        body = self.ladder(s, inner, outs)
+        tys = ' × '.join(['Nat'] + [{'nat': 'Nat', 'bool': 'Bool'}[st.env[v][1]] for v in outs])
+        self.aux.append(f'/-- {doc} -/\ndef {name} (p : List (BitVec 8)) (q : Nat) : {tys} :=\n{indent(body)}\n')
+        return name, outs
+
+    # ---- positions
+    def pos(self, st, e):
+        if e == ('id', 'p'):
+            return self.at(st)
+        if e == ('mem', '->', ('id', 'tok'), 'loc'):
+            return 'loc'
+        if e[0] == 'bin' and e[1] == '+' and e[3] == ('mem', '->', ('id', 'tok'), 'len'):
+            return f'{self.pos(st, e[2])} + len'
+        raise ExtractError(f'{self.name}: position {e} not understood')
+
+    def fresh(self):
+        self.nq += 1
+        return f'q{self.nq}'
+
+
+class ScanFn(TextConds):
+    """A token scan of tokenize(): `char *q = p++; for (;;) { if (C1) p += 2; else if (C2) p++; else break; }` — an endless loop whose
+    body only moves the cursor and leaves through `break`.  Result: the position where the loop stops (the token is [start, end))."""
+
+    def __init__(self, name, lean_name, calls):
+        super().__init__(name, calls)
+        self.lean_name = lean_name
+
+    def body(self, stmts, st, lname):
+        if not stmts:
+            return f'{lname} p fuel ({self.at(st)})'
+        s, rest = stmts[0], stmts[1:]
+        if s[0] == 'block':
+            return self.body(list(s[1]) + rest, st, lname)
+        if s[0] == 'break':
+            return self.at(st)
+        if s[0] == 'continue':
+            return f'{lname} p fuel ({self.at(st)})'
+        if s[0] == 'if':
+            c = self.cond(st, s[1])
+            a = self.body(unblock(s[2]) + rest, st.copy(), lname)
+            b = self.body(unblock(s[3]) + rest, st.copy(), lname)
+            return f'if {c} then\n{indent(a)}\nelse\n{indent(b)}'
+        if s[0] == 'expr':
+            e = s[1]
+            if e == ('postinc', ('id', 'p')) or e == ('preinc', ('id', 'p')):
+                st.k += 1
+                return self.body(rest, st, lname)
+            if e[0] == 'assign' and e[1] == '+=' and e[2] == ('id', 'p') and e[3][0] == 'num':
+                st.k += e[3][1]
+                return self.body(rest, st, lname)
+        raise ExtractError(f'{self.name}: statement {s} inside the scan loop not supported')
+
+    def translate(self, start_cond, first_step, loop, doc_start, doc_end):
+        """start_cond: the `if` condition that selects the arm; first_step: how far `p` is moved before the loop; loop: the `for (;;)`"""
+        if loop[0] != 'for' or loop[1] is not None or loop[2] is not None or loop[3] is not None:
+            raise ExtractError(f'{self.name}: the scan loop is not `for (;;)`')
+        st0 = State('start', 0, {})
+        c = self.cond(st0, start_cond)
+        lname = f'{self.lean_name}_loop1'
+        inner = State('i', 0, {})
+        body = self.body(unblock(loop[4]), inner, lname)
+        if lname not in body:
+            raise ExtractError(f'{self.name}: the scan loop never continues')
+        out = f'/-- {doc_start} -/\ndef {self.lean_name}Start (p : List (BitVec 8)) (start : Nat) : Bool :=\n  decide {c}\n\n'
+        out += f'def {lname} (p : List (BitVec 8)) : Nat → Nat → Nat\n  | 0, i => i\n  | fuel + 1, i =>\n{indent(body, 4)}\n\n'
+        out += f'/-- {doc_end} -/\ndef {self.lean_name}End (p : List (BitVec 8)) (start : Nat) : Nat :=\n'
+        out += f'  {lname} p (p.length + 1) (start + {first_step})\n'
+        return out
